@@ -104,6 +104,8 @@ def call_app(iface, app, root, path, host=None, omit_empty_script_name=False):
              "query_string": b""}
     if host is not None:
         scope["headers"].append((b"host", host.encode("latin-1") if isinstance(host, (str, SStr)) else host))
+    if _items_of(root) == [] and omit_empty_script_name:
+        del scope["root_path"]  # ASGI: root_path is optional and defaults to ""
     sent = []
 
     async def send(m):
@@ -113,7 +115,7 @@ def call_app(iface, app, root, path, host=None, omit_empty_script_name=False):
         return {"type": "http.disconnect"}
     drive(app(scope, receive, send))
     status = sent[0]["status"] if sent else None
-    return status, {"root": scope["root_path"], "path": scope["path"]}
+    return status, {"root": scope.get("root_path", ""), "path": scope["path"]}
 
 
 def must(e: Engine, cond, klass, detail=""):
@@ -286,6 +288,8 @@ HOST_TABLES = [
     [r"", r"a"],
     [r"(w\.)?a\.io", r"b\.io", r"c\.io"],  # a capturing group in a non-last entry (group numbering must not leak into dispatch)
     [r"l(:\d+)?", r"(a|b)c", r"d"],
+    [r"a\.io|b\.io", r"a\.io\.c"],  # a top-level alternation: an anchor appended to (or a prefix match of) the pattern text binds to one branch only
+    [r"ab|c", r"abc", r"cd"],
 ]
 
 
@@ -382,10 +386,11 @@ def jobs(tier: str):
                     out.append(dict(name=f"mount/{iface}/p{l1}q{l2}r{lr}x{lp}", kind="mount", iface=iface, l1=l1, l2=l2, lr=lr, lp=lp, weight=2 ** (l1 + l2 + lp)))
                     if lp >= 2 and (tier == "thorough" or lr >= 1):
                         out.append(dict(name=f"nested/{iface}/p{l1}q{l2}r{lr}x{lp}", kind="mount", iface=iface, l1=l1, l2=l2, lr=lr, lp=lp, nested=True, weight=2 ** (l1 + l2 + lp)))
-        if iface == "wsgi":
-            for l1, l2, lp in ((2, 0, 2), (0, 2, 3), (2, 2, 3)):
-                out.append(dict(name=f"mount/wsgi/no-SCRIPT_NAME-key/p{l1}q{l2}x{lp}", kind="mount", iface="wsgi", l1=l1, l2=l2, lr=0, lp=lp, omit_script_name=True,
-                                weight=2 ** (l1 + l2 + lp)))
+        for l1, l2, lp in ((2, 0, 2), (0, 2, 3), (2, 2, 3)):
+            key = "SCRIPT_NAME" if iface == "wsgi" else "root_path"
+            out.append(dict(name=f"mount/{iface}/no-{key}-key/p{l1}q{l2}x{lp}", kind="mount", iface=iface, l1=l1, l2=l2, lr=0, lp=lp, omit_script_name=True,
+                            weight=2 ** (l1 + l2 + lp)))
+        out.append(dict(name=f"nested/{iface}/no-root-key/p2q2x4", kind="mount", iface=iface, l1=2, l2=2, lr=0, lp=4, nested=True, omit_script_name=True, weight=40))
         for lw in (2, 3):
             # (4, 2, .., 4): the shortest table in which the second prefix is a segment prefix of the first ('/a/b' before '/a')
             for l1, l2, lp in ((2, 2, 2), (2, 1, 3), (4, 2, 4), (2, 4, 4)):
